@@ -60,7 +60,7 @@ func TestInspect(t *testing.T) {
 		fmt.Println("REFERENCE:", err)
 		return
 	}
-	ref := net.run(c.In, c.Ticks+8, 0)
+	ref := net.run(c.In, c.Ticks+8, 0, false)
 	fmt.Println("source :", ref.Out, fmt.Sprintf("%+v", ref.Stats))
 	fmt.Println("declared bonds", net.wiring())
 	for ci := range rs.CPs {
